@@ -70,6 +70,14 @@ CHECKS["C14"] = dict(
     ref="C14",
 )
 
+CHECKS["C13"] = dict(
+    technique="hand-written Coq model of the three renderers/format_errors/exit status tied by vm_compute correspondence on generated Error objects and reports; Coq proofs for every message (colour minus escapes = plain, one line per diagnostic in each format, hint iff, exit iff); CLI matrix and string-literal perturbation search",
+    category="proof",
+    text="Lib/Render.v models Error.__str__, format_with_color (including the four-back-tick regex as a split), format_as_github_annotation, format_errors and the exit status; it is compared with the real functions on hundreds of generated Error objects (0-6 back-ticks, %, \\1, quotes, non-ASCII, odd file names) and reports under every format/quiet combination. Proved for all messages free of ESC/line breaks: strip_ansi (color e) = plain e, each rendering is one line, the hint appears iff a diagnostic exists and quiet is off, exit status 1 iff the report is non-empty. That real messages are single-line is searched: every string literal of test/data is perturbed with \\n, \\r and back-ticks and all diagnostics are re-rendered; every --format/--quiet/--sort combination runs through the real CLI on files inside, outside the cwd and missing.",
+    note="Trusted: Coq kernel; model-code correspondence for Lib/Render.v; the regex-as-split modelling of ERROR_DIFF_PATTERN (checked by the correspondence on 4-back-tick messages).",
+    ref="C13",
+)
+
 NOT_APPLICABLE = {}
 
 
